@@ -217,6 +217,9 @@ class UnitRegistry:
             new_dimensions = self.lut[symbol][1]
 
         self.lut[symbol] = (float(base_value), new_dimensions) + self.lut[symbol][2:]
+        # converting a quantity bound to this registry (above) hashes units,
+        # which memoizes the id of the table as it was before this edit
+        self._unit_system_id = None
         # prefixed and compound spellings are cached too, not only the symbol
         self._unit_object_cache.clear()
 
